@@ -117,9 +117,10 @@ func (s *supSOFO) childTerminated(name gen.Atom, pid gen.PID, reason error) supA
 	var action supAction
 
 	delete(s.pids, pid)
+	// it may be waited for since DisableChild, not only since the shutdown
+	delete(s.wait, pid)
 
 	if s.shutdown {
-		delete(s.wait, pid)
 		if len(s.wait) > 0 {
 			// return action with empty process list for termination
 			action.do = supActionTerminateChildren
